@@ -9,7 +9,7 @@ Local Open Scope N_scope.
    is listed with base / size = its merged extent and exactly that identifier ... *)
 Theorem C08_qualifying_listed : forall ms tbl users m nm e id,
   In m ms -> m_name m = Some nm -> interesting m = true -> contained m (map (fun u => (um_start u, um_size u)) users) = false ->
-  lookup tbl nm = Some e -> ei_id e = Some id -> usable_id id = true ->
+  lookup tbl nm (m_off m) = Some e -> ei_id e = Some id -> usable_id id = true ->
   In (module_of m id (ei_soname e)) (module_list ms tbl users).
 Proof. exact qualifying_listed. Qed.
 Print Assumptions C08_qualifying_listed.
@@ -17,7 +17,7 @@ Print Assumptions C08_qualifying_listed.
 Theorem C08_listed_qualifies : forall ms tbl users md,
   In md (target_modules ms tbl users) ->
   exists m nm e id, In m ms /\ m_name m = Some nm /\ interesting m = true /\ contained m users = false /\
-                    lookup tbl nm = Some e /\ ei_id e = Some id /\ usable_id id = true /\ md = module_of m id (ei_soname e).
+                    lookup tbl nm (m_off m) = Some e /\ ei_id e = Some id /\ usable_id id = true /\ md = module_of m id (ei_soname e).
 Proof. exact listed_qualifies. Qed.
 Print Assumptions C08_listed_qualifies.
 Theorem C08_extent : forall m id so,
